@@ -231,6 +231,12 @@ def cases(ctx):
             doc = ("fl", [("u1", ut)], [f"BU({L}, u1)"], "[u1, 1.5, -0.0, 2.0, 6.0, 1e300, 's', '%d', '%', '%s']") if kind == "value" else \
                   ("fm", [("u1", U)], [f"BU({L}, u1)"], "{1.5: u1, 2.0: 0, -0.0: 1, 'a': 2, 6.0: 3, '%d': 4, '%': 5}")
             out.append(one_case(kind, None, name, ("conc", [], [], args, {}), doc))
+    # equal_to_approx at large magnitudes and at the tolerance edge (concrete floats: where `value +- tolerance` rounds back to
+    # `value`, or the edge fraction is not representable, only the documented `abs(item - value) < tolerance` is right)
+    for n, args in enumerate([["1e300", "1e-8"], ["1700000000"], ["9007199254740992", "0.5"], ["1", "0.1"], ["1700000000.5", "0.25"]]):
+        doc = ("flbig", [("u1", "Optional[str]")], [f"BU({L}, u1)"],
+               "[u1, 1e300, 1700000000, 1700000000.0, 9007199254740992, 9007199254740993, 0.9, 1.1, 1.0999999999999999, 1700000000.25, 1700000000.75, -1e300]")
+        out.append(one_case("value", None, "equal_to_approx", (f"big{n}", [], [], args, {}), doc))
     # float-only family for equal_to_approx (symbolic floats)
     body = f"""
 T = leaf('value', None, 'equal_to_approx', v, tol)
